@@ -327,24 +327,11 @@ def _routes(rep, w, dt, src):
 
 
 def _normalisers(rep, M, src):
-    """assignments into the result dictionary under the meter_datetime key store `<x>.datetime` unchanged"""
-    n = bad = 0
-    for mod in ("aidon", "kaifa", "kamstrup"):
-        tree = src.tree(mod)
-        for fn in [f for f in ast.walk(tree) if isinstance(f, ast.FunctionDef)]:
-            for s in ast.walk(fn):
-                if isinstance(s, ast.Assign) and len(s.targets) == 1 and isinstance(s.targets[0], ast.Subscript):
-                    v = s.value
-                    txt = ast.unparse(v)
-                    if txt.endswith(".datetime") or ".datetime" in txt:
-                        n += 1
-                        if not (isinstance(v, ast.Attribute) and v.attr == "datetime"):
-                            bad += 1
-                            rep.violation("R6", f"{mod}.{fn.name}", "datetime-transformed", "the decoded clock is transformed before it is stored", src.file(mod), s.lineno, witness=txt[:80])
-    rep.count("datetime_stores", n)
-    if not bad and n:
-        rep.ok("R6", f"{n} store sites", "each normaliser stores the struct's `datetime` member as is")
-    rep.floor("datetime store sites", n, 5)
+    """every normaliser stores the struct's datetime member unchanged: decided by the decoders' own abstract evaluation (E-ABS), where the clock is a symbolic value"""
+    from sa.cross import include
+    include(rep, src, "C07", {"R5"}, "R6", "the Aidon normaliser stores the clock element's datetime unchanged")
+    include(rep, src, "C08", {"R4"}, "R6", "the Kaifa normalisers store the list clock / APDU date-time unchanged")
+    include(rep, src, "C09", {"R5"}, "R6", "the Kamstrup normalisers store the list clock / APDU date-time unchanged")
 
 
 def thorough(src, rep):
